@@ -198,8 +198,15 @@ def run(u, ctx):
         if j % 10 == 0:
             base = base_manifest(rng)
             other = base_manifest(rng)
+            nde = rng.random() < 0.12
+            if nde:
+                # a signer may use --not-dash-escaped: then "- " at the start of a
+                # line is literal content of the authenticated cleartext
+                lines = base.split('\n')
+                lines.insert(rng.randrange(len(lines)), '- DATA evil 0')
+                base = '\n'.join(lines)
             try:
-                signed = h.clearsign(base)
+                signed = h.clearsign(base, extra=['--not-dash-escaped'] if nde else ())
                 signed2 = h.clearsign(other)
             except RuntimeError as exc:
                 ctx.count('harness_error')
@@ -222,3 +229,64 @@ def run(u, ctx):
 
 def replay(case, ctx):
     judge(ctx, case['text'], case, original=(case.get('op') == 'original'))
+
+
+def run_reload(u, ctx):
+    """History: one OpenPGP environment object, the same signed top-level Manifest
+    loaded twice by fresh loaders; in between it is rewritten in place (same inode,
+    same size, timestamps restored) so that the signature no longer matches."""
+    from gemato.exceptions import GematoException
+    from gemato.openpgp import SystemGPGEnvironment
+    from gemato.recursiveloader import ManifestRecursiveLoader
+    h = home()
+    rng = common.rng_for(ctx.seed, 'C04', 'reload', u['i'])
+    data = rng.randbytes(20)
+    body = mtext.render([mtext.file_entry('DATA', 'a', data, ['SHA256']),
+                         {'tag': 'IGNORE', 'path': 'ign%d' % rng.randrange(100)}])
+    signed = h.clearsign(body)
+    case = {'kind': 'reload', 'text': signed}
+    ctx.case(sig=('reload',), case=case, klass='gpg-reload')
+    with common.Scratch('vf-c04r-') as d:
+        with open(os.path.join(d, 'a'), 'wb') as f:
+            f.write(data)
+        top = os.path.join(d, 'Manifest')
+        with open(top, 'w') as f:
+            f.write(signed)
+        os.environ['GNUPGHOME'] = h.dir
+        try:
+            env = SystemGPGEnvironment()
+            try:
+                m = ManifestRecursiveLoader(top, verify_openpgp=True, openpgp_env=env)
+            except Exception as exc:
+                ctx.violation('rejects-genuine:' + type(exc).__name__, 'genuinely signed '
+                              'top-level Manifest rejected: %r' % (exc,), case)
+                return
+            if not m.openpgp_signed:
+                ctx.violation('signed-flag-wrong', 'signed top-level not flagged', case)
+                return
+            m.assert_directory_verifies('')
+            st = os.stat(top)
+            # same-size tamper inside the signed body: another digest digit
+            i = signed.index('SHA256 ') + 7 + rng.randrange(60)
+            c = signed[i]
+            t2 = signed[:i] + ('0' if c != '0' else '1') + signed[i + 1:]
+            with open(top, 'r+') as f:
+                f.write(t2)
+            os.utime(top, ns=(st.st_atime_ns, st.st_mtime_ns))
+            ctx.count('gpg:reloads')
+            try:
+                m2 = ManifestRecursiveLoader(top, verify_openpgp=True, openpgp_env=env)
+            except GematoException:
+                ctx.count('gpg:rejected')
+                return
+            except Exception as exc:
+                ctx.violation('gpg-load-raises:' + adapt.exc_key(exc), 'reload raised %r'
+                              % (exc,), case)
+                return
+            ctx.violation('stale-verification-reused', 'a signed top-level Manifest was '
+                          'rewritten in place (same inode, size and mtime) and the second '
+                          'load on the same OpenPGP environment still reports it as '
+                          'validly signed (openpgp_signed=%r)' % (m2.openpgp_signed,),
+                          case)
+        finally:
+            os.environ.pop('GNUPGHOME', None)
